@@ -144,6 +144,7 @@ class NonlinRecorder:
     def __init__(self, ex):
         self.ex = ex
         self.calls = []
+        self.objs = []
         self.depth = 0
         self.saved = {}
 
@@ -171,6 +172,7 @@ class NonlinRecorder:
                             rec.depth -= 1
                         if rec.depth == 0:
                             rec.calls.append((np.asarray(u_hat), np.asarray(out)))
+                            rec.objs.append(self_)
                         return out
                     return wrapped
                 cls.__call__ = make(orig)
